@@ -385,7 +385,7 @@ func Check(prop, tier string, nworkers int) int {
 	t0 := time.Now()
 	fmt.Printf("check property=%s tier=%s VERIF_SEED=%d units<=%d budget=%ds workers=%d\n", prop, tier, seed, units, secs, nworkers)
 	vd := VerifDir()
-	resDir := filepath.Join(vd, ".build", "results", prop)
+	resDir := filepath.Join(vd, ".build", "results", prop+os.Getenv("VERIF_BUILD_TAG"))
 	os.RemoveAll(resDir)
 	os.MkdirAll(resDir, 0777)
 	exe, _ := os.Executable()
@@ -718,7 +718,7 @@ func Determinism(prop string, units int) int {
 	}
 	exe, _ := os.Executable()
 	vd := VerifDir()
-	resDir := filepath.Join(vd, ".build", "results", prop+"-det")
+	resDir := filepath.Join(vd, ".build", "results", prop+"-det"+os.Getenv("VERIF_BUILD_TAG"))
 	os.RemoveAll(resDir)
 	os.MkdirAll(resDir, 0777)
 	seed := envInt("VERIF_SEED", 20260925)
